@@ -13,7 +13,7 @@ F = lambda *p: ("f", tuple(p))
 OP = lambda op, a, b: ("op", op, a, b)
 
 SLOT_TYPES = ["u8", "i8", "u16", "i16be", "bcd8", "u32", "enum8", "inner", "dyn", "pars", "bitsT", "anon",
-              "arr_u8x2", "arr_auto", "arr_i16x2", "arr_inner", "f32", "bcd16", "u64", "senum8", "arr_bits", "i32", "zero_tail", "arr_u24x2", "arr_tri", "enumk8", "f64", "arr_par2", "anon_arr", "u16k", "anon_skip"]
+              "arr_u8x2", "arr_auto", "arr_i16x2", "arr_inner", "f32", "bcd16", "u64", "senum8", "arr_bits", "i32", "zero_tail", "arr_u24x2", "arr_tri", "enumk8", "f64", "arr_par2", "anon_arr", "u16k", "anon_skip", "anon_fwd"]
 STARTS = ["const", "off", "next", "next+1", "off+1", "overlap", "prevval", "2*off+1", "fwdval", "off-2"]
 CONDS = ["always", "tag==1", "tag==2", "off<3", "flg", "flg&&tag==1", "flg||tag==1", "present_prev", "tag==5",
          "param", "prev==7", "tag!=0&&len==1", "prev==7&&tag==1", "tag==1&&prev==7", "prev==7||tag==1",
@@ -27,7 +27,7 @@ PARAMS = ["none", "uint4", "int4", "enum"]
 
 DEFAULT_SIZE = {"u8": 1, "i8": 1, "u16": 2, "i16be": 2, "bcd8": 1, "u32": 4, "enum8": 1, "inner": 2, "dyn": 3, "pars": 2,
                 "bitsT": 1, "anon": 1, "arr_u8x2": 2, "arr_auto": None, "arr_i16x2": 4, "arr_inner": 4, "f32": 4,
-                "bcd16": 2, "u64": 8, "senum8": 1, "arr_bits": 2, "i32": 4, "zero_tail": 0, "arr_u24x2": 6, "arr_tri": 6, "enumk8": 1, "f64": 8, "arr_par2": 4, "anon_arr": 3, "u16k": 2, "anon_skip": 1}
+                "bcd16": 2, "u64": 8, "senum8": 1, "arr_bits": 2, "i32": 4, "zero_tail": 0, "arr_u24x2": 6, "arr_tri": 6, "enumk8": 1, "f64": 8, "arr_par2": 4, "anon_arr": 3, "u16k": 2, "anon_skip": 1, "anon_fwd": 1}
 INT_SCALARS = {"u8", "i8", "u16", "i16be", "bcd8", "u32", "bcd16", "u64", "i32", "u16k"}
 
 
@@ -185,6 +185,10 @@ def program(ch, menu=None):
         elif st == "anon_skip":
             typ = ("anon", [A.Field("a%d" % i, ("UInt", None), C(0), C(4), text_output="Skip"),
                             A.Field("g%d" % i, ("Flag",), C(7), C(1))])
+        elif st == "anon_fwd":
+            # a member whose condition reads a sibling declared after it (text must be written in dependency order)
+            typ = ("anon", [A.Field("a%d" % i, ("UInt", None), C(0), C(4), cond=F("g%d" % i)),
+                            A.Field("g%d" % i, ("Flag",), C(7), C(1))])
         elif st == "arr_u8x2":
             typ = ("array", ("UInt", 8), C(2))
         elif st == "arr_auto":
@@ -254,7 +258,7 @@ def program(ch, menu=None):
         elif cond_kind == "flg||tag==1":
             cond = OP("||", F("flg"), OP("==", F("tag"), C(1)))
         elif cond_kind == "present_prev":
-            cond = ("present", (prev[0],)) if prev and prev[1] not in ("anon", "anon_arr", "anon_skip") else ("present", ("tag",))
+            cond = ("present", (prev[0],)) if prev and prev[1] not in ("anon", "anon_arr", "anon_skip", "anon_fwd") else ("present", ("tag",))
         elif cond_kind == "tag==5":
             cond = OP("==", F("tag"), C(5))
         elif cond_kind == "param":
@@ -307,10 +311,10 @@ def program(ch, menu=None):
         elif attr_kind == "emit":
             text_output = "Emit"
         if order_choice == "none" and bo is None and st not in ("inner", "dyn", "pars", "arr_inner", "arr_tri", "arr_par2", "zero_tail"):
-            one_byte = st in ("u8", "i8", "bcd8", "enum8", "senum8", "enumk8", "bitsT", "anon", "anon_skip", "arr_u8x2", "arr_auto", "arr_bits")
+            one_byte = st in ("u8", "i8", "bcd8", "enum8", "senum8", "enumk8", "bitsT", "anon", "anon_skip", "anon_fwd", "arr_u8x2", "arr_auto", "arr_bits")
             if not one_byte:
                 bo = order
-        if st in ("anon", "anon_arr", "anon_skip"):
+        if st in ("anon", "anon_arr", "anon_skip", "anon_fwd"):
             fld = A.Field(None, typ, start, size_expr, cond=cond, byte_order=bo if st == "anon_arr" else None)
             if text_output and st == "anon":
                 typ[1][0].text_output = text_output      # the attribute on a member of the anonymous bits
